@@ -90,6 +90,8 @@ def plan(seed, subbatch):
                        "clock_lag_s": sub_rng(seed, "clock").choice((1, 1, base_s, tf_s, 3 * 3600, None)),
                        # another manager alive in the same process, built first over the same stream moved by an
                        # hour or half an hour (the size of the panel zones' offset changes)
+                       # timestamps as instances of a datetime subclass (data frames hand such objects over)
+                       "stamp_subclass": sub_rng(seed, "stamp-class").random() < 0.15,
                        "neighbours": ([{"tf": tf, "shift_s": sub_rng(seed, "neighbours").choice((-3600, 3600, -1800, 1800))}]
                                       if sub_rng(seed, "neighbours-p").random() < 0.3 else [])},
             "ops": [{"op": "new", "preload": pre}] + ops, "fired": dict(fired)}
@@ -181,9 +183,13 @@ def execute(trace, ctx=None):
             run.stats["zone_runs"] += 1
         run.state(trace["config"]["tf"], route, min(len(snaps[-1]), 3), bool(trace["config"].get("fill")))
         run.nontrivial = len(snaps[-1]) >= 2 and (n_appends >= 2 or planlib.feed_fired(trace.get("fired")))
+    from .. import catalogue
+
+    catalogue.STAMP_SUBCLASS = bool(trace["config"].get("stamp_subclass"))
     try:
         return run_property(ID, body, trace)
     finally:
+        catalogue.STAMP_SUBCLASS = False
         _set_tz("UTC")
 
 
